@@ -473,7 +473,16 @@ CLAIMS = {
          "assignment/call/return/composite literal, interface satisfaction, unused locals and imports, terminating statements, legal "
          "identifiers), applied to the REAL Go AST of every accepted corpus and generated program. goIdent_legal (C19) proves identifier "
          "legality for all strings. The printed text is tied to that AST on every run (go_pprint output parsed back by goparse.rs with "
-         "Go's automatic-semicolon, precedence and composite-literal rules; oracle go-printer). Dead-code elimination (go/dce.rs) has a "
+         "Go's automatic-semicolon, precedence and composite-literal rules; oracle go-printer). The printer itself (pprint/go_pprint.rs) has a Lean "
+         "model (Model/GoPrint.lean: the `pretty` Doc algebra it uses with pretty 0.12's renderer, escape_go_string, go_float_literal, go_type_name/doc, every "
+         "Expr/Stmt/Item form) tied BYTE FOR BYTE to the real `to_pretty` at widths 40/80/120 on every top-level item of every corpus/generated "
+         "program and of synthetic Go ASTs (gv gopp | gomlmodel gopp, oracle rows go-printer-model), and theorems in Props/GoPrint.lean: "
+         "render_width_irrelevant (the printer builds no group/line, so the text is the same at every width), print_expr_roundtrip + "
+         "parse_deterministic (the printer writes NO parentheses; on paren-free trees of the operator subset the printed tokens parse back, by Go's "
+         "5 binary levels/unary/postfix grammar, to exactly the tree - the tie checks every compiler-produced item is paren-free), glue_free_expr "
+         "(no two tokens written without a space read as another Go token), "
+         "escape_go_string_decodes (Go's interpreted-string lexing of the escaped text gives back every string), no_break_inserts_semicolon "
+         "(line breaks inside an expression follow only `{` or `,`). Dead-code elimination (go/dce.rs) has a "
          "Lean model tied exactly to the real pass (gv dce | gomlmodel dce) and theorems in Props/Dce.lean: dce_no_unused (every kept "
          "local and type-switch binding is read), dce_decl_before_use, prune_imports_exact, prune_funcs_closed. "
          "Name-test catalogue (gv c02names; validation, not proof): the string literals the middle/back end compares names with are re-read from the Rust on every run "
@@ -483,7 +492,7 @@ CLAIMS = {
          "named like a builtin, types/packages whose name contains `TParam`, a library function called `main`, items called `main`/`main0`.",
     design_ref="§5 C02; DCE (C02/C09) — as built",
     note="Trusted: Go.Check as our reading of the Go spec (accepts the 73 corpus programs real Go accepted, rejects 058 as real Go did); "
-         "goast dump; goparse.rs as our reading of Go's lexical grammar; compile.rs is modelled (Model/GoCompile.lean, exact tie `gv gocomp`): the scope rules of its "
+         "goast dump; goparse.rs as our reading of Go's lexical grammar (the Lean side models Go's expression grammar, string-literal lexing and semicolon rule on the printer's own token pieces, not a character-level Go lexer: adjacency of tokens is proved for the expression subset (glue_free_expr) and checked per item by glueFree); compile.rs is modelled (Model/GoCompile.lean, exact tie `gv gocomp`): the scope rules of its "
          "output are proved for InGoFragment functions (Props/GoCompile.lean compile_wellformed + Props/Dce.lean), typing and everything outside the fragment are validated per program.",
     technique="translation validation with a Lean-defined Go type/scope checker on the real Go AST, printer round trip, and Lean theorems about the DCE pass"),
  "C14": dict(
